@@ -141,7 +141,8 @@ Malformed(line, L, mem) == [keep |-> TRUE, line |-> line, L |-> SetError(L), mem
 Rewritten(rec, line) == line # rec.line
 Stage(st, mem, rec, line, L) ==
   CASE st.t \in {"logfmt", "json", "unpack"} /\ Rewritten(rec, line) -> R0(TRUE, line, L, mem, TRUE)
-    [] st.t = "line" -> R0(LineMatch(st.op, st.val, st.re, line), line, L, mem, FALSE)
+    \* (an ip("...") needle is outside the modelled grammar: only the relations of C19 are checked on it)
+    [] st.t = "line" -> IF Fld(st, "ip", FALSE) THEN R0(TRUE, line, L, mem, TRUE) ELSE R0(LineMatch(st.op, st.val, st.re, line), line, L, mem, FALSE)
     [] st.t = "label" -> LET r == Pred(st.pred, L) IN R0(r.keep, line, r.L, mem, r.open)
     [] st.t = "logfmt" ->
          IF Fld(rec, "lmal", FALSE) THEN Malformed(line, L, mem)
